@@ -100,7 +100,8 @@ def compare(A, B, n1, findings, cfg, ver, fresh):
             sig = dict(kind='initialized-not-persisted')            # only the `initialized` flag differs
         elif st['k'] == 'I' and A.obs[ja]['status'] != B.obs[j]['status'] and 22 in (A.obs[ja].get('errno'), B.obs[j].get('errno')):
             sig = dict(kind='initialized-not-persisted')            # one side refuses a second init with EINVAL
-        elif st['k'] in ('M', 'D') and fa[:2] == fb[:2] and \
+        elif st['k'] in ('M', 'D') and fa[:2] == fb[:2] and A.obs[ja].get('pino') == B.obs[j].get('pino') and \
+                [e['m'] for e in A.obs[ja]['events']] != [e['m'] for e in B.obs[j]['events']] and \
                 [e for e in A.obs[ja]['events'] if e['m'] not in ('init', 'destroy')] == [e for e in B.obs[j]['events'] if e['m'] not in ('init', 'destroy')]:
             sig = dict(kind='initialized-not-persisted')            # same result, only init/destroy calls to backends differ
         elif fresh == 'default' and gm and st['k'] in ('R', 'M'):
